@@ -202,10 +202,30 @@ fn run_thread(tid: usize, ops: &[Op], mut h: Handles, sh: &Shared, collect: bool
                     let mut g = o.write();
                     let a = *g;
                     shuttle::thread::yield_now();
-                    let p = ObservableWriteGuard::set(&mut g, upd(a, *t));
+                    // the write goes through one of the guard's notifying methods
+                    let p = match *t % 3 {
+                        0 => ObservableWriteGuard::set(&mut g, upd(a, *t)),
+                        1 => {
+                            let mut seen = 0;
+                            ObservableWriteGuard::update(&mut g, |v| {
+                                seen = *v;
+                                *v = upd(*v, *t)
+                            });
+                            seen
+                        }
+                        _ => {
+                            let mut seen = 0;
+                            ObservableWriteGuard::update_if(&mut g, |v| {
+                                seen = *v;
+                                *v = upd(*v, *t);
+                                true
+                            });
+                            seen
+                        }
+                    };
                     drop(g);
                     if a != p {
-                        panic!("{ORACLE} guard_exclusion: a write guard read {a} but its set returned {p} as the previous value");
+                        panic!("{ORACLE} guard_exclusion: a write guard read {a} but its write saw {p} as the previous value");
                     }
                     sh.rec(tid, HOp::Rmw(*t), inv, Res::Val(a));
                 }
